@@ -242,7 +242,7 @@ pub fn run(g: &mut Global) {
     );
     let cap = g.tier.pick(512usize, 4096usize);
     let maxops = g.tier.pick(1500usize, 13000usize);
-    g.random("random", g.tier.pick(8000, 100000), &move || strategy(cap, maxops), &check);
+    g.random("random", g.tier.pick(20000, 100000), &move || strategy(cap, maxops), &check);
     if g.tier == Tier::Thorough {
         g.fuzz_stage("ops_total", None, 5_000_000, "random", &|b| crate::fuzzdec::decode_c12(b), &check);
     }
